@@ -102,6 +102,8 @@ func draw(kind string, seed, n int) []*genlab.ProgSpec {
 			o.NonStrict = i%4 == 1
 			if kind == "redact" {
 				o.RedactRate = 2
+				// the type of a field may carry annotations of its own
+				o.TypeAnnots = true
 			}
 			if kind == "service" {
 				o.MoreServices = true
